@@ -13,6 +13,8 @@ type Environment struct {
 	Aliases   map[string]string
 	toCompact []Object
 	removed   map[string]bool
+	// values of the SET actions of the update being evaluated, computed on the pre-update item
+	assignedValues map[*ActionExpression]Object
 }
 
 // NewEnvironment creates a new enviroment
